@@ -617,6 +617,10 @@ func c12ServeRound(r *R, srv *scriptSrv, st *simrt.Tape, round []*c12cmd, model 
 			}
 			if ok {
 				elig = append(elig, g)
+			} else if g.cmd.Kind == "esearch" && len(g.untagged) > 0 {
+				// an ESEARCH response names its command by the TAG correlator and carries UIDs: it may be sent
+				// while earlier searches are still unanswered (only the tagged completions keep their order)
+				elig = append(elig, g)
 			}
 		}
 		g := elig[st.Choose(len(elig))]
